@@ -156,7 +156,10 @@ class C08(EngineProp):
             out.append({'role': 'client', 'profile': 'reconnect', 'kind': 'reconnect',
                         'open': [rng.choice(['channel', 'channel', 'stream', 'rr']) for _ in range(rng.randint(1, 3))],
                         'credit': rng.choice([0, 3, 2 ** 31 - 1]), 'cause': rng.choice(['eof', 'error', 'healthy']), 'via': rng.choice([None, 'plain', 'suspend']),
-                        'late': [rng.choice(['next', 'complete', 'error', 'next2', 'none']) for _ in range(3)], 'new_requests': rng.randint(0, 2), 'rounds': rng.randint(1, 2)})
+                        'late': [rng.choice(['next', 'complete', 'error', 'next2', 'none']) for _ in range(3)], 'new_requests': rng.randint(0, 2), 'rounds': rng.randint(1, 2),
+                        # the write side of the old connection breaks first and the application goes on using its open streams for a moment:
+                        # frames queued for the dead connection must not come out on the next one
+                        'wfail': rng.random() < 0.4})
         return out
 
     def run_impl(self, case):
@@ -184,10 +187,11 @@ class C08(EngineProp):
         await loop.settle()
 
         class S:
-            def on_subscribe(self, s): pass
-            def on_next(self, v, is_complete=False): pass
-            def on_complete(self): pass
-            def on_error(self, e): pass
+            def __init__(self): self.subscription, self.ended = None, False
+            def on_subscribe(self, s): self.subscription = s
+            def on_next(self, v, is_complete=False): self.ended = self.ended or is_complete
+            def on_complete(self): self.ended = True
+            def on_error(self, e): self.ended = True
 
         class Pub:
             """a legal publisher: emits only within the credit it was given and never after cancel()"""
@@ -221,13 +225,16 @@ class C08(EngineProp):
         for rnd in range(case['rounds']):
             t = R.transports[rnd]
             n0 = len(t.sent)
+            subs = []
             for k in case['open']:
                 if k == 'channel':
                     p = Pub()
                     pubs.append(p)
-                    c.request_channel(Payload(b'c'), publisher=p).subscribe(S())
+                    subs.append(S())
+                    c.request_channel(Payload(b'c'), publisher=p).subscribe(subs[-1])
                 elif k == 'stream':
-                    c.request_stream(Payload(b's')).subscribe(S())
+                    subs.append(S())
+                    c.request_stream(Payload(b's')).subscribe(subs[-1])
                 else:
                     c.request_response(Payload(b'r'))
             await loop.settle()
@@ -238,6 +245,13 @@ class C08(EngineProp):
                         fr.stream_id, fr.request_n = e[2].stream_id, case['credit']
                         t.deliver(fr.serialize())
                 await loop.settle()
+            if case.get('wfail'):
+                t.fail_sends = True
+                for _ in range(2):
+                    for sb in subs:
+                        if sb.subscription is not None and not sb.ended:
+                            sb.subscription.request(1)       # the first one ends the sender; what follows stays in the queue
+                    await loop.settle()
             via = case['via'] if case['cause'] in ('eof', 'error') else None
             if via:
                 R.reconnect_in_on_close = True
@@ -404,5 +418,5 @@ class C08(EngineProp):
 
 C08.rule = ('as C07 (protocol-legal peer, legal application, races, loss); every frame the endpoint queues is judged by a per-stream monitor against the endpoint\'s own '
             'earlier sends and receptions on that stream; plus client scenarios: requests and lease grants issued while connecting (SETUP first, once), lease-held requests with request(n)/cancel() before the LEASE, '
-            'and reconnects (server EOF / transport error / healthy; reconnect() from the harness or from inside on_close) with channels, streams and request-responses open whose publishers, if the library did not cancel them, emit on the new connection: each connection is judged on its own')
+            'and reconnects (server EOF / transport error / healthy; reconnect() from the harness or from inside on_close) with channels, streams and request-responses open whose publishers, if the library did not cancel them, emit on the new connection: in 40% of them the write side of the old connection breaks first and the application goes on granting credit on its open streams for a moment; each connection is judged on its own')
 PROP = C08()
